@@ -501,15 +501,19 @@ P["C02"]["units"] += parse_units("C02", "C02") + [vc("C02")]
 # frame with loop_entry invariants, recorded instead of performed free).  So the loops are unwound instead:
 # every token of fewer than N characters (all positions of the dots, all contents), unwinding assertions on.
 def parse_unit(N, tier):
-    return U("C06.bounded.jwt_parse_N%d" % N, "jwt_parse (libjwt/jwt-verify.c): every token shorter than %d characters" % N, VERIFY_C, "contracts/jwt_verify_c.h",
-      "jwt_t *jwt; size_t n; __CPROVER_assume(n < %d); char *t = VS(n); unsigned *l; jwt_parse(jwt, t, l);" % N,
+    # token length L < 2^33 with (L mod 2^32) < N: every token shorter than N, AND every token whose length wraps to less
+    # than N in 32 bits (strlen + 1 used to be kept in an int: defect F16).  The strlen model is told the token's length.
+    return U("C06.bounded.jwt_parse_N%d" % N, "jwt_parse (libjwt/jwt-verify.c): every token whose length modulo 2^32 is below %d" % N, VERIFY_C, "contracts/jwt_verify_c.h",
+      "jwt_t *jwt; size_t n; __CPROVER_assume(n < 0x200000000UL && (n & 0xffffffffUL) < %d); char *t = VS(n); g_strlen_hint_s = t; g_strlen_hint_n = n; unsigned *l; jwt_parse(jwt, t, l);" % N,
       "jwt_parse/contract_all_jwt_parse",
       replace=["jwt_parse_head/contract_rec_jwt_parse_head", "jwt_parse_payload/contract_rec_jwt_parse_payload"],
-      stubs=VERIFY_JSON_STUBS + ["stubs/parse_env.c"], defines=["VERIF_TU_JWT_VERIFY", "VERIF_STRLEN_RECORD"], pre=[VS], flags=["--conversion-check"],
+      stubs=VERIFY_JSON_STUBS + ["stubs/parse_env.c"], defines=["VERIF_TU_JWT_VERIFY", "VERIF_STRLEN_RECORD", "VERIF_STRLEN_HINT"],
+      pre=[VS, "extern const char *g_strlen_hint_s; extern size_t g_strlen_hint_n;"], flags=["--conversion-check"],
       assumed_contracts=["jwt_parse_head/contract_rec_jwt_parse_head", "jwt_parse_payload/contract_rec_jwt_parse_payload"],
-      unwindset="jwt_parse.0:%d,jwt_parse.1:%d" % (N + 2, N + 2), kind="bounded", bound="token length < %d (loops unwound %d times, unwinding assertions on)" % (N, N + 2),
+      unwindset="jwt_parse.0:%d,jwt_parse.1:%d" % (N + 2, N + 2), kind="bounded",
+      bound="token length L < 2^33 with L mod 2^32 < %d (loops unwound %d times, unwinding assertions on)" % (N, N + 2),
       expect=["contract_all_jwt_parse\\.postcondition\\.9", "jwt_parse\\.unwind", "contract_rec_jwt_parse_head\\.precondition", "memcpy\\.assertion\\.1"],
-      timeout=900, timeout_thorough=3000, tier=tier)
+      timeout=900, timeout_thorough=3000, tier=tier, replay={"driver": "replay/r_C06_long.c"})
 P["C06"] = {"property": "C06", "level": "proof", "units": [parse_unit(12, "quick"), parse_unit(28, "thorough"),
     U("C06.jwt_base64uri_decode_to_json", "jwt_base64uri_decode_to_json (libjwt/jwt-verify.c)", VERIFY_C, "contracts/jwt_verify_c.h",
       "size_t n; __CPROVER_assume(n < 0x10000000); char *h = VS(n); jwt_base64uri_decode_to_json(h);",
@@ -632,7 +636,8 @@ P["C08"]["units"] += [
     U("C08.jwk_process_values", "jwk_process_values (libjwt/jwks.c)", JWKS_C, "contracts/jwks_c.h",
       "json_t *j; jwk_item_t *it; jwk_process_values(j, it);", "jwk_process_values/contract_C08_jwk_process_values",
       replace=["jwt_strcmp/contract_exact_jwt_strcmp", "jwk_key_op_j/contract_shape_jwk_key_op_j", "jwt_str_alg/contract_C02_jwt_str_alg"],
-      stubs=LIBC + ["stubs/alloc.c", "stubs/jansson.c"], defines=["VERIF_TU_JWKS", "VERIF_ALLOC_RECORD_FAIL", "VERIF_STRLEN_RECORD", "VERIF_STRLEN_RECORD_ARG", "VERIF_STRCPY_MEASURED", "VJ_ARRAY_STATIC_ELEM"], flags=[], object_bits=10,
+      stubs=LIBC + ["stubs/alloc.c", "stubs/jansson.c"], defines=["VERIF_TU_JWKS", "VERIF_ALLOC_RECORD_FAIL", "VERIF_STRLEN_RECORD", "VERIF_STRLEN_RECORD_ARG", "VERIF_STRCPY_MEASURED", "VJ_ARRAY_STATIC_ELEM", "PV_MAX_STR=0x200000000UL", "VJ_MAX_STR=0x200000000UL"], flags=["--conversion-check"], object_bits=10,
+      replay={"driver": "replay/r_C07_kid.c"},
       loops={"jwk_process_values": [{"loop_id": 0, "vars": ["i", "j_op", "item"], "assigns": "i, j_op, item->key_ops, g_vj_elem, __CPROVER_object_whole(g_vj_elem_str)", "invariants": ["1 == 1"],
               "globals": {"g_vj_elem": "g_vj_elem", "g_vj_elem_str": "g_vj_elem_str"}}]},
       expect=["contract_C08_jwk_process_values\\.postcondition\\.6", "jwk_process_values\\.loop_invariant_step", "contract_C02_jwt_str_alg\\.precondition"], timeout=900),
